@@ -17,6 +17,7 @@ mod ops_part;
 mod ops_raft;
 mod ops_rel;
 mod ops_snap;
+mod ops_store;
 mod ops_wal;
 
 fn dispatch(req: &Value) -> Value {
@@ -52,6 +53,9 @@ fn dispatch(req: &Value) -> Value {
         return v;
     }
     if let Some(v) = ops_chain::handle(op, req) {
+        return v;
+    }
+    if let Some(v) = ops_store::handle(op, req) {
         return v;
     }
     if let Some(v) = ops_snap::handle(op, req) {
